@@ -515,7 +515,9 @@ class WebSocketReader:
                     f_end_pos = start_pos + self._payload_bytes_to_read
                     self._payload_bytes_to_read = 0
 
-                had_fragments = self._frame_payload_len
+                # An empty slice is stored when a read ends right after the frame
+                # header, so the list, not the byte count, tells if there are fragments.
+                had_fragments = len(self._payload_fragments)
                 self._frame_payload_len += f_end_pos - start_pos
                 f_start_pos = start_pos
                 start_pos = f_end_pos
